@@ -127,6 +127,8 @@ def callee_from_clauses(name, params, requires, ensures, results, ghosts=None, r
                     res.append(core.alloc(st, 2, core.fresh('res_' + name, core.A2R), shp, core.REAL))
                 elif kind == 'bmat':
                     res.append(core.alloc(st, 2, core.fresh('res_' + name, z3.ArraySort(core.INT, z3.ArraySort(core.INT, core.BOOL))), shp, core.BOOL))
+                elif kind == 'imat':
+                    res.append(core.alloc(st, 2, core.fresh('res_' + name, core.A2I), shp, core.INT))
                 elif kind == 'int':
                     res.append(core.fresh('res_' + name, core.INT))
                 else:
